@@ -78,10 +78,13 @@ WellFormed(m) ==
 (*  - version 1 does not store the name type: any value;                   *)
 (*  - 16-bit types (enctype, addrtype, ad_type) may be reported signed or  *)
 (*    unsigned: equality modulo 2^16;                                      *)
-(*  - 32-bit times may be read as signed or (MIT >= 1.16) unsigned         *)
-(*    seconds: the low 32 bits are the written ones and the rest is the    *)
-(*    sign extension or zero.  An observed time is [hi, lo] with           *)
-(*    lo the low 32 bits (4-tuple) and hi the value shifted right by 32.   *)
+(*  - 32-bit times are signed seconds (the property quantifies "times over *)
+(*    the signed 32-bit range"; the format documents int32): the low 32    *)
+(*    bits are the written ones and the rest is their sign extension.  An  *)
+(*    observed time is [hi, lo] with lo the low 32 bits (4-tuple) and hi   *)
+(*    the value shifted right by 32.  (MIT >= 1.16 reads the same field    *)
+(*    unsigned; a reader doing so does not return the written time for     *)
+(*    values before 1970 and is rejected here.)                            *)
 (*  - ticket flags are a 32-bit integer whose most significant bit is      *)
 (*    Kerberos flag 0 (TKT_FLG_FORWARDABLE = 0x40000000 = flag 1), i.e. as *)
 (*    a KerberosFlags bit string the 4 bytes in most-significant-first     *)
@@ -91,7 +94,7 @@ PrincOK(m, p, o) == /\ o.realm = p.realm
                     /\ o.comps = p.comps
                     /\ (m.version = 1 \/ o.nt = p.nt)
 U16(v) == (v + 65536) % 65536
-TimeOK(w, o) == o.lo = w /\ (o.hi = 0 \/ (w[1] >= 128 /\ o.hi = -1))
+TimeOK(w, o) == o.lo = w /\ o.hi = (IF w[1] >= 128 THEN -1 ELSE 0)
 TypedOK(s, o) == /\ Len(o) = Len(s)
                  /\ \A i \in 1..Len(s) : U16(o[i].t) = s[i].t /\ o[i].d = s[i].d
 \* field by field, so that a rejected line can name the fields that differ
